@@ -5,7 +5,11 @@
 // boundary and at sampled offsets elsewhere (prefix rule, exact count); positional damage
 // (flipped bytes, zeroed / garbage ranges, rewritten length fields, zero / garbage tails):
 // every yielded record is an original one, in order, and only records with a chunk in a damaged
-// block are missing; strict mode yields a prefix and stops with an error; never a panic or hang.
+// block are missing; strict mode yields a prefix and stops with an error; never a panic or hang;
+// whatever agrees with the written stream up to the first altered byte yields first, in all four
+// modes, the records written wholly before it (C12_prefix_complete / _damage_strict_complete);
+// cut + zero / garbage tail up to the written length (the crash images of C04): sub-sequence
+// after the records inside the cut; zero tail: at most one record beyond them in every mode.
 // (K) cases for Corr/C12Run.v: streams written by journal.Writer must be accepted by the model
 // reader as exactly the records; journal.Reader's observation list (records, skips, error and
 // every Dropper.Drop with reason and size) must equal the model's on intact, truncated and
@@ -315,16 +319,63 @@ func (c *streamCtx) checkDamage(ds []dmgSpec, piece int, count func(string)) str
 		count("damage_noop")
 		return ""
 	}
+	// C12_prefix_complete: whatever agrees with the written stream on its first n bytes yields, in
+	// every mode and with no hypothesis on the rest, first of all the records written wholly
+	// inside those n bytes (n = offset of the first altered byte)
+	firstDiff := 0
+	for firstDiff < len(dmg) && firstDiff < len(c.S) && dmg[firstDiff] == c.S[firstDiff] {
+		firstDiff++
+	}
+	inside := 0
+	for _, e := range c.lay.End {
+		if e <= firstDiff {
+			inside++
+		}
+	}
+	modes := [][2]bool{{false, true}, {true, true}, {false, false}, {true, false}}
+	var obs [4][]outc
+	for i, m := range modes {
+		o, pm := readImpl(dmg, m[0], m[1], piece)
+		if pm != "" {
+			return fmt.Sprintf("damage: reader (strict=%v checksum=%v) panicked/hung: %s", m[0], m[1], pm)
+		}
+		obs[i] = o
+		got := recsOf(o)
+		if len(got) < inside || !sameRecs(got[:inside], c.rs[:inside]) {
+			return fmt.Sprintf("damage (first altered byte %d): reader (strict=%v checksum=%v) must yield first the %d records written wholly before it, gave: %s", firstDiff, m[0], m[1], inside, describe(o))
+		}
+	}
+	count("prefix_complete_checked")
+	if len(ds) == 1 && ds[0].Kind == "cutzero" && ds[0].Off <= len(c.S) {
+		// C12_zero_tail: no hypothesis, every mode: the records wholly inside the cut, then at most
+		// one further record (from the chunk the cut falls in)
+		m := 0
+		for _, e := range c.lay.End {
+			if e <= ds[0].Off {
+				m++
+			}
+		}
+		for i, md := range modes {
+			if got := recsOf(obs[i]); len(got) > m+1 {
+				return fmt.Sprintf("cut at %d + zero tail: reader (strict=%v checksum=%v) yielded %d records, at most %d+1 possible (zeros never parse as chunks): %s", ds[0].Off, md[0], md[1], len(got), m, describe(obs[i]))
+			}
+		}
+		count("zero_tail_checked")
+		if len(recsOf(obs[2])) == m+1 {
+			count("zero_tail_extra_record_without_checksum")
+		}
+		if len(recsOf(obs[0])) == m+1 {
+			count("zero_tail_extra_record_with_checksum")
+		}
+	}
+	if inside > 0 && inside < len(c.rs) {
+		count("prefix_complete_nontrivial")
+	}
 	// the hypothesis of the damage theorems (no checksum collision), evaluated with the real CRC
 	if noForgery(c.S, c.lay, dmg) {
 		count("no_forgery_held")
 	} else {
 		count("no_forgery_failed_case_skipped")
-		for _, m := range [][2]bool{{false, true}, {true, true}, {false, false}, {true, false}} {
-			if _, pm := readImpl(dmg, m[0], m[1], piece); pm != "" {
-				return fmt.Sprintf("damage: reader (strict=%v checksum=%v) panicked/hung: %s", m[0], m[1], pm)
-			}
-		}
 		return ""
 	}
 	must := make([]bool, len(c.rs))
@@ -342,6 +393,11 @@ func (c *streamCtx) checkDamage(ds []dmgSpec, piece int, count func(string)) str
 				allBefore = false
 			}
 		}
+		if k < inside {
+			// C12_damage_contained_prefix / C12_tail_contained: wholly before the first altered byte
+			must[k] = true
+			allBefore = true
+		}
 		if must[k] {
 			nmust++
 		}
@@ -352,10 +408,7 @@ func (c *streamCtx) checkDamage(ds []dmgSpec, piece int, count func(string)) str
 		}
 	}
 	// tolerant, checksums on
-	o, pm := readImpl(dmg, false, true, piece)
-	if pm != "" {
-		return "damage: tolerant reader panicked/hung: " + pm
-	}
+	o := obs[0]
 	got := recsOf(o)
 	if msg := matchTolerant(got, c.rs, must); msg != "" {
 		return fmt.Sprintf("damage (blocks %v): tolerant reader: %s; observed: %s", keys(D), msg, describe(o))
@@ -367,10 +420,7 @@ func (c *streamCtx) checkDamage(ds []dmgSpec, piece int, count func(string)) str
 		count("damage_lost_exactly_touched")
 	}
 	// strict, checksums on
-	o, pm = readImpl(dmg, true, true, piece)
-	if pm != "" {
-		return "damage: strict reader panicked/hung: " + pm
-	}
+	o = obs[1]
 	got = recsOf(o)
 	hasErr := false
 	for i, x := range o {
@@ -385,7 +435,7 @@ func (c *streamCtx) checkDamage(ds []dmgSpec, piece int, count func(string)) str
 		return fmt.Sprintf("damage (blocks %v): strict reader must yield a prefix of the written records, gave: %s", keys(D), describe(o))
 	}
 	if len(got) < lead {
-		return fmt.Sprintf("damage (blocks %v): strict reader yielded %d records, but %d lie entirely before the first damaged block: %s", keys(D), len(got), lead, describe(o))
+		return fmt.Sprintf("damage (blocks %v, first altered byte %d): strict reader yielded %d records, but %d lie entirely before the damage: %s", keys(D), firstDiff, len(got), lead, describe(o))
 	}
 	if !hasErr && len(got) != len(c.rs) {
 		return fmt.Sprintf("damage (blocks %v): strict reader lost records without reporting an error: %s", keys(D), describe(o))
@@ -393,10 +443,13 @@ func (c *streamCtx) checkDamage(ds []dmgSpec, piece int, count func(string)) str
 	if hasErr {
 		count("damage_strict_error")
 	}
-	// checksums off: only totality
-	for _, strict := range []bool{false, true} {
-		if _, pm := readImpl(dmg, strict, false, piece); pm != "" {
-			return fmt.Sprintf("damage: reader (strict=%v checksum=false) panicked/hung: %s", strict, pm)
+	for _, d := range ds {
+		if d.Kind == "cutzero" || d.Kind == "cutgarbage" {
+			count("cut_tail_no_forgery_held")
+			if len(recsOf(obs[0])) > inside {
+				count("cut_tail_record_beyond_cut_yielded")
+			}
+			break
 		}
 	}
 	return ""
@@ -589,6 +642,10 @@ func runStream(idx int, r *vlib.RNG, bs int, maxBlocks int, bud budget, wantK bo
 			o, pm := readImpl(dmg, m[0], m[1], 0)
 			if pm == "" {
 				addK(fmt.Sprintf("CRead %s %s %s %s", vlib.CoqBool(m[0]), vlib.CoqBool(m[1]), coqSegs(dmg), coqObs(o)), blocksCost(len(dmg), bs), "damage")
+				if len(dmg) == len(c.S) && (i == 0 || ds[0].Kind == "cutzero" || ds[0].Kind == "cutgarbage") {
+					// the hypothesis of the damage / tail theorems, evaluated on both sides
+					addK(fmt.Sprintf("CForgery [%s] %s %s", strings.Join(recSegs, "; "), coqSegs(dmg), vlib.CoqBool(noForgery(c.S, c.lay, dmg))), 2*blocksCost(len(dmg), bs), "no_forgery")
+				}
 				for _, x := range o {
 					if x.Kind == oDrop {
 						count(fmt.Sprintf("k_drop_reason_%d", x.Reason))
@@ -681,7 +738,7 @@ func main() {
 	// ---- budgets
 	nStreams, nBig, maxBlocks, kStreams, kBig := 200, 16, 3, 56, 4
 	bud := budget{cutExtra: 100, cutAllBelow: 2000, damages: 36, kCuts: 2, kDamages: 4}
-	kBudget := 1000 // model block reads (about 0.1 s of coqc each)
+	kBudget := 1250 // model block reads (about 0.1 s of coqc each)
 	if a.Thorough() {
 		nStreams, nBig, kStreams, kBig = 3000, 200, 400, 24
 		bud = budget{cutExtra: 800, cutAllBelow: 40000, damages: 250, kCuts: 4, kDamages: 8}
